@@ -1,4 +1,5 @@
 import Lemmas.Segmenter
+import Lemmas.Compose
 /-!
 # C13 — Segments tile every block range exactly
 
@@ -239,6 +240,25 @@ theorem mergedBuckets_covers (m : Nat) (l : List Range) (hwf : WF l) (x : Nat) :
     Covers (mergedBuckets m l) x ↔ Covers l x :=
   (mergedBuckets_spec m l hwf).2 x
 
+/-! ### The whole walk: `Range(idx)` for `idx = FirstIndex() … LastIndex()` -/
+
+/-- **"non-empty, contiguous, disjoint … their union is exactly [initial, end)"**, as one statement about the
+list every consumer of a segmenter walks (`Segmenter.segments`): it is a chain of non-empty ranges, the
+first starting at `init`, each starting where the previous one stops, the last stopping at `end_`. -/
+theorem segments_tile (hk : 0 < s.interval) (hlt : s.init < s.end_) : Tiles s.segments s.init s.end_ :=
+  segments_tiles s hk hlt
+
+/-- hence the blocks listed segment after segment are exactly `init, init+1, …, end_-1`: every block once,
+in increasing order (this is the form the C02 and C01 composition theorems use). -/
+theorem segments_list_every_block_once (hk : 0 < s.interval) (hlt : s.init < s.end_) :
+    (s.segments.map Range.blocks).flatten = List.range' s.init (s.end_ - s.init) :=
+  segments_blocks s hk hlt
+
+/-- and the segment sizes add up to the size of the range. -/
+theorem segments_sizes_sum (hk : 0 < s.interval) (hlt : s.init < s.end_) :
+    (s.segments.map Range.size).sum = s.end_ - s.init :=
+  Segmenter.segments_sizes s hk hlt
+
 /-! ### Non-vacuity: the hypotheses are met by concrete non-trivial instances, and the functions
 compute what the repository's own tests expect. -/
 
@@ -246,6 +266,7 @@ example : (⟨10, 5, 47⟩ : Segmenter).range? 0 = some ⟨5, 10⟩ ∧
     (⟨10, 5, 47⟩ : Segmenter).range? 4 = some ⟨40, 47⟩ ∧
     (⟨10, 5, 47⟩ : Segmenter).range? 5 = none ∧ (⟨10, 5, 47⟩ : Segmenter).count = 5 := by decide
 example : (0:Nat) < (⟨10, 5, 47⟩ : Segmenter).interval ∧ (⟨10, 5, 47⟩ : Segmenter).init < 47 := by decide
+example : (⟨10, 5, 47⟩ : Segmenter).segments = [⟨5, 10⟩, ⟨10, 20⟩, ⟨20, 30⟩, ⟨30, 40⟩, ⟨40, 47⟩] := by decide
 example : (⟨3, 11⟩ : Range).split 4 = [⟨3, 4⟩, ⟨4, 8⟩, ⟨8, 11⟩] := by decide
 example : WF [⟨1, 3⟩, ⟨3, 5⟩, ⟨7, 9⟩] := by unfold WF; decide
 
